@@ -215,6 +215,14 @@ fn unit_c02(w: &mut W, call: Call, data: &[u8]) {
     if first_final.is_none() {
         w.st.count("chains_all_partial", 1);
     }
+    let cls = first_final.as_ref().map_or(1, |f| f.1.st.class());
+    if w.st.room(cls) && w.st.counters.get("chains").copied().unwrap_or(0) % 7 == 1 {
+        let note = match &first_final {
+            Some((k, r)) => format!("Partial for every prefix shorter than {}, then {} for every longer prefix", k, r.st.show()),
+            None => "Partial for every prefix".to_string(),
+        };
+        w.st.sample_c(cls, crate::report::J::obj().set("entry", crate::report::J::s(call.entry.name())).set("cfg_bits", crate::report::J::U(call.cfg as u64)).set("capacity", crate::report::J::U(call.cap as u64)).set("backend", crate::report::J::s(call.backend.name())).set("stream", crate::report::J::S(crate::report::esc(data))).set("chain_of_prefix_parses", crate::report::J::U(data.len() as u64 + 1)).set("observed", crate::report::J::S(note)));
+    }
     // history form: one reused value fed the stream at random cut points
     if Kind::of(call.entry) == Kind::Req || Kind::of(call.entry) == Kind::Resp {
         let mut r = crate::rng::Rng::derive(w.seed, 0xc02, crate::rng::hash_bytes(3, data));
